@@ -727,8 +727,8 @@ def list_extend(interp, lst, other, node=None):
             return
         lst.go_symbolic()      # the list becomes symbolic in place (identity and aliases kept)
     if isinstance(lst, Seq):
-        if isinstance(other, (SrcIter,)):
-            other = drain(interp, other, 'list', node)
+        if isinstance(other, (SrcIter, MapIter, ZipIter, GenObj, ListIter)):
+            other = to_seq(interp, other, 'list', node)          # list.extend(iterator): the elements, in order (T6)
         r = concat(interp, lst, other)
         lst.arr, lst.len = r.arr, r.len
         return
